@@ -625,11 +625,16 @@ func (mem *CListMempool) Update(
 		mem.postCheck = postCheck
 	}
 
+	// A block may contain the same tx more than once (e.g. a replay that
+	// fails in DeliverTx): a tx that was committed successfully must stay in
+	// the cache even if a later occurrence of it failed.
+	committed := make(map[types.TxKey]struct{}, len(txs))
 	for i, tx := range txs {
 		if deliverTxResponses[i].Code == abci.CodeTypeOK {
 			// Add valid committed tx to the cache (if missing).
 			_ = mem.cache.Push(tx)
-		} else if !mem.config.KeepInvalidTxsInCache {
+			committed[tx.Key()] = struct{}{}
+		} else if _, ok := committed[tx.Key()]; !ok && !mem.config.KeepInvalidTxsInCache {
 			// Allow invalid transactions to be resubmitted.
 			mem.cache.Remove(tx)
 		}
